@@ -487,13 +487,14 @@ def rule_c11_best_states(prog: Program, col: Collector) -> None:
         raise AnalysisError("get_best_exploitability: sampling call not found")
     S = samp[0].term
     actions_t, values_t = ("index", S, ("const", 0)), ("index", S, ("const", 1))
-    loops = [e for e in ft.of_kind("loop") if e.iter is not None and is_call_to(e.iter, "enumerate") and e.iter[2] and e.iter[2][0] == actions_t]
+    # `for i, seq in enumerate(sample_actions)` is recorded as `for i in range(len(sample_actions))` with seq = sample_actions[i]
+    loops = [e for e in ft.of_kind("loop") if e.iter == ("call", ("global", "range"), (("call", ("global", "len"), (actions_t,), ()),), ())]
     if not loops:
         col.undecidable(ref.where(), ref.short, "selection loop is not `for i, seq in enumerate(sample_actions)`")
         return
     lp = loops[0]
     elem = ("elem", lp.iter, lp.uid)
-    i_t, seq_t = ("index", elem, ("const", 0)), ("index", elem, ("const", 1))
+    i_t, seq_t = elem, ("index", actions_t, elem)
     stores = [e for e in ft.of_kind("store") if any(f[0] == "for" and f[1] == lp.uid for f in e.ctx)]
     steps = ("call", ("global", "len"), (seq_t,), ())
     col_i = ("index", values_t, ("tuple", (("slice", None, None, None), i_t)))
